@@ -16,6 +16,15 @@ KNOWN = os.path.join(VERIF, "known_findings.json")
 FLOORS = os.path.join(VERIF, "pdsa", "floors.json")
 
 
+class MISSING:
+    """Fallback location used when the construct a clause wants to inspect was not found.
+    A failing clause whose construct is missing is an *analysis error* (the idiom is outside
+    the enumerated set), never a violation."""
+
+    def __init__(self, node):
+        self.node = node
+
+
 class Finding:
     def __init__(self, rule, func, stmt, message, loc, extra=None):
         self.rule = rule
@@ -61,6 +70,8 @@ class Ctx:
         self.obligations.append(o)
 
     def bad(self, rule, func, node, message, what=None, extra=None, module=None):
+        if isinstance(node, MISSING):
+            raise AnalysisError("%s: construct not found (%s)" % (rule, message))
         """A refuted obligation.  ``func`` is a FunctionInfo/ClassInfo or a string,
         ``node`` the offending AST node (or a string describing the construct)."""
         self.rule_counts[rule] = self.rule_counts.get(rule, 0) + 1
@@ -93,6 +104,10 @@ class Ctx:
         return f
 
     def check(self, cond, rule, func, node, what, message=None, detail=None):
+        if isinstance(node, MISSING):
+            if not cond:
+                raise AnalysisError("%s: construct not found for clause '%s' (%s)" % (rule, what, message or "idiom not recognised"))
+            node = node.node
         if cond:
             where = func.loc(node) if (not isinstance(func, str) and node is not None and not isinstance(node, str)) else (
                 func.loc() if not isinstance(func, str) else func)
